@@ -58,6 +58,8 @@ type renameTable struct {
 	funcAlias   map[*ssa.Function]string // current function -> reference full name
 	funcByRef   map[string]*ssa.Function // reference full name -> current function
 	fieldAlias  map[*types.Var]string    // current field -> reference name
+	paramPerm   map[*ssa.Function][]int  // current parameter index -> reference index, for functions whose parameters were only reordered
+	groupField  map[*types.Var]bool      // current field of a new struct type that only groups reference fields
 	typeNew2Old map[string]string        // "pkgpath.New" -> "pkgpath.Old"
 	typeOld2New map[string]string
 	strRepl     [][2]string // (current spelling, reference spelling) for printed names, longest first
@@ -92,7 +94,7 @@ func isNewHelperOrInside(f *ssa.Function) bool {
 	return isNewHelper(f)
 }
 
-var curRenames = &renameTable{funcAlias: map[*ssa.Function]string{}, funcByRef: map[string]*ssa.Function{}, fieldAlias: map[*types.Var]string{}, typeNew2Old: map[string]string{}, typeOld2New: map[string]string{}}
+var curRenames = &renameTable{funcAlias: map[*ssa.Function]string{}, funcByRef: map[string]*ssa.Function{}, fieldAlias: map[*types.Var]string{}, groupField: map[*types.Var]bool{}, paramPerm: map[*ssa.Function][]int{}, typeNew2Old: map[string]string{}, typeOld2New: map[string]string{}}
 
 func isIdentChar(c byte) bool {
 	return c == '_' || c >= '0' && c <= '9' || c >= 'a' && c <= 'z' || c >= 'A' && c <= 'Z'
@@ -331,7 +333,7 @@ func jaccard(a, b []string) float64 {
 
 // loadRenames compares the analysed program with the reference inventory.
 func loadRenames(P *Program, path string) {
-	curRenames = &renameTable{funcAlias: map[*ssa.Function]string{}, funcByRef: map[string]*ssa.Function{}, fieldAlias: map[*types.Var]string{}, typeNew2Old: map[string]string{}, typeOld2New: map[string]string{}}
+	curRenames = &renameTable{funcAlias: map[*ssa.Function]string{}, funcByRef: map[string]*ssa.Function{}, fieldAlias: map[*types.Var]string{}, groupField: map[*types.Var]bool{}, paramPerm: map[*ssa.Function][]int{}, typeNew2Old: map[string]string{}, typeOld2New: map[string]string{}}
 	haveReference = false
 	curProgram = P
 	b, err := os.ReadFile(path)
@@ -451,6 +453,11 @@ func loadRenames(P *Program, path string) {
 			}
 			continue
 		}
+		// fields gathered into a new struct type held by value: T{a, b, c} became T{a, g S} with S{b, c}.
+		// g is transparent (terms print x.g.b as x.b) and S's fields stand for the missing reference fields.
+		if groupFields(P, t, cur, &ref, k, st, ct, rt, mapTypes) {
+			continue
+		}
 		// different length: a missing name and a new name with a type no other candidate has
 		for i, cf := range ct.Fields {
 			if refNames[cf.Name] {
@@ -474,6 +481,39 @@ func loadRenames(P *Program, path string) {
 	for f := range P.AllFuncs {
 		if f.Parent() == nil && len(f.Blocks) > 0 && f.Synthetic == "" && inModule(f) {
 			curFn[f.String()] = f
+		}
+	}
+	// parameters only reordered: same name, the same parameter types each occurring once, same results
+	for k, cf := range cur.Funcs {
+		rf, ok := ref.Funcs[k]
+		if !ok || rf.Flat == "" || mapTypes(cf.Flat) == rf.Flat || curFn[k] == nil {
+			continue
+		}
+		cp, cres := splitFlat(mapTypes(cf.Flat))
+		rp, rres := splitFlat(rf.Flat)
+		if cres != rres || len(cp) != len(rp) || len(cp) != len(curFn[k].Params) {
+			continue
+		}
+		perm := make([]int, len(cp))
+		okPerm := true
+		for i, ct := range cp {
+			at := -1
+			for j, rt := range rp {
+				if rt == ct {
+					if at >= 0 {
+						okPerm = false // a type that occurs twice: the order of the two is not known
+					}
+					at = j
+				}
+			}
+			if at < 0 {
+				okPerm = false
+			}
+			perm[i] = at
+		}
+		if okPerm {
+			t.paramPerm[curFn[k]] = perm
+			t.Notes = append(t.Notes, fmt.Sprintf("function %s has its parameters reordered %v", shortenFull(k), perm))
 		}
 	}
 	var missF, newF []string
@@ -637,4 +677,121 @@ func refName(f *ssa.Function) string {
 		return old[strings.LastIndex(old, ".")+1:]
 	}
 	return f.Name()
+}
+
+// groupFields recognises reference fields regrouped into by-value fields of new struct types and records the
+// aliases; false when the type's fields were not regrouped that way (or not all of them can be matched).
+func groupFields(P *Program, t *renameTable, cur, ref *refInventory, k string, st *types.Struct, ct, rt refType, mapTypes func(string) string) bool {
+	type flatField struct {
+		name, typ string
+		v         *types.Var
+	}
+	var flat []flatField
+	var groups []*types.Var
+	for i, cf := range ct.Fields {
+		named, _ := st.Field(i).Type().(*types.Named)
+		if named != nil && named.Obj().Pkg() != nil {
+			key := named.Obj().Pkg().Path() + "." + named.Obj().Name()
+			_, inRef := ref.Types[key]
+			_, aliased := t.typeNew2Old[key]
+			if gs, ok := named.Underlying().(*types.Struct); ok && !inRef && !aliased && strings.HasPrefix(key, modPath) && !st.Field(i).Embedded() {
+				if gt, ok := cur.Types[key]; ok && len(gt.Fields) == gs.NumFields() {
+					for j, gf := range gt.Fields {
+						flat = append(flat, flatField{gf.Name, gf.Type, gs.Field(j)})
+					}
+					groups = append(groups, st.Field(i))
+					continue
+				}
+			}
+		}
+		flat = append(flat, flatField{cf.Name, cf.Type, st.Field(i)})
+	}
+	if len(groups) == 0 || len(flat) != len(rt.Fields) {
+		return false
+	}
+	refNames := map[string]bool{}
+	for _, f := range rt.Fields {
+		refNames[f.Name] = true
+	}
+	flatNames := map[string]bool{}
+	for _, f := range flat {
+		flatNames[f.name] = true
+	}
+	alias := map[*types.Var]string{}
+	used := map[string]bool{}
+	var pending []flatField
+	for _, f := range flat {
+		if !refNames[f.name] {
+			pending = append(pending, f)
+		}
+	}
+	related := func(a, b string) bool {
+		a, b = strings.ToLower(a), strings.ToLower(b)
+		return strings.Contains(a, b) || strings.Contains(b, a)
+	}
+	// first by name relation (rx ~ rxLimiter), then by order among fields of the same type
+	for pass := 0; pass < 2; pass++ {
+		var rest []flatField
+		for _, f := range pending {
+			var cands []string
+			for _, rf := range rt.Fields {
+				if !flatNames[rf.Name] && !used[rf.Name] && rf.Type == mapTypes(f.typ) && (pass == 1 || related(f.name, rf.Name)) {
+					cands = append(cands, rf.Name)
+				}
+			}
+			if len(cands) == 1 || pass == 1 && len(cands) > 1 {
+				alias[f.v] = cands[0]
+				used[cands[0]] = true
+				continue
+			}
+			rest = append(rest, f)
+		}
+		pending = rest
+	}
+	if len(pending) > 0 {
+		return false
+	}
+	for v, o := range alias {
+		if prev, ok := t.fieldAlias[v]; ok && prev != o {
+			return false // the same group type stands for differently named fields elsewhere
+		}
+	}
+	for v, o := range alias {
+		t.fieldAlias[v] = o
+		t.Notes = append(t.Notes, "field "+shortenFull(k)+"."+o+" moved into a grouping struct as "+v.Name())
+	}
+	for _, g := range groups {
+		t.groupField[g] = true
+	}
+	return true
+}
+
+// splitFlat splits "func(A,B,C) R" into its parameter types and the result part.
+func splitFlat(sig string) ([]string, string) {
+	if !strings.HasPrefix(sig, "func(") {
+		return nil, sig
+	}
+	depth := 0
+	start := len("func(")
+	var params []string
+	for i := len("func("); i < len(sig); i++ {
+		switch sig[i] {
+		case '(', '[', '{':
+			depth++
+		case ')', ']', '}':
+			if depth == 0 {
+				if i > start {
+					params = append(params, strings.TrimSpace(sig[start:i]))
+				}
+				return params, strings.TrimSpace(sig[i+1:])
+			}
+			depth--
+		case ',':
+			if depth == 0 {
+				params = append(params, strings.TrimSpace(sig[start:i]))
+				start = i + 1
+			}
+		}
+	}
+	return params, ""
 }
